@@ -395,8 +395,13 @@ def judge_shards(ctx, spec, shard_files, label=None, timeout=1800, slim=None, cf
         ctx.traces += len(cases)
         ctx.evaluations += len(cases)
         by_id = {str(c.get("id")): c for c in cases}
+        seen = set()
         for rej in r.rejects:
             cid = str(rej[0])
+            # a REJECT printed from inside an action can be evaluated more than once
+            if (cid, str(rej[1:2])) in seen:
+                continue
+            seen.add((cid, str(rej[1:2])))
             c = by_id.get(cid, {})
             ctx.report(cid, rej[1] if len(rej) > 1 else "rejected", rej[2:], {"source": c.get("source"), "trace_spec": spec, "line": (slim(c) if slim else None)})
     return all_cases
